@@ -140,6 +140,17 @@ def translate():
          lambda: tr.assign_expr('temperature.airpos', 'pos', 'tr_airpos0', ['area_padded_size', 'data_start_byte'])[0])
     step('temperature/Read.__airpos.inc',
          lambda: tr.assign_expr('temperature.airpos', 'inc', 'tr_air_inc', ['area_padded_size', 'padded_size', 'nlayers'])[0])
+    # ---- wind/Read.py seek arithmetic
+    wrd = mod('wind/Read.py')
+    cx5 = P.Ctx(funcs=dict(cx.funcs), selffields=[], selfprefix='wr')
+    body5 = []
+    for f in ['layerrecords', 'timerecords', 'recordposition']:
+        def g5(f=f):
+            body5.append(wrd.function('wind.' + f, 'wr_' + f, cx5) + '\n')
+            return ''
+        step('wind/Read.wind.__' + f, g5)
+    out.append(P.self_record(cx5))
+    out.extend(body5)
     text = ''.join(out)
     P.write_if_changed(os.path.join(C.COQ, 'Gen', 'Camx.v'), text)
     return res
